@@ -53,7 +53,7 @@ CHECKS = {
          "2/C17"),
  "C15": ("model_checking",
          "grammar-generated dictionaries enumerated completely up to a size bound (all shapes x all single-slot value deviations, pairs on small shapes) through write->parse, with an independent reference CIF reader on the text",
-         "All shapes of <= 3 items (thorough: <= 4 items over 6 names, 240,780 shapes) - every ordered choice of names that triggers each loop-grouping decision, each item scalar or column of length 0..3 - in 4 block layouts, with every single-slot deviation over a 15-value alphabet (ints, floats incl. 1e-5 and 123456.789, integral float, words, strings with blanks / apostrophes / double quotes / double blanks / symmetry-operation text), numpy columns, two generations; parse_value on numbers with (su) and quoted strings.",
+         "All shapes of <= 3 items (thorough: <= 4 items over 6 names, 240,780 shapes) - every ordered choice of names that triggers each loop-grouping decision, each item scalar or column of length 0..3 - in 4 block layouts, with every single-slot deviation over a 16-value alphabet (ints, floats incl. 1e-5 and 123456.789, integral float, words, strings with blanks / apostrophes / double quotes / double blanks / symmetry-operation text), numpy columns, two generations; parse_value on numbers with (su) and quoted strings.",
          "Strings needing nested quotes, number-like strings and reserved words are outside the alphabet (as the quantifier says); 2.0 -> 2 is treated as the documented coercion.",
          "2/C15"),
 }
